@@ -14,7 +14,7 @@ import (
 func (g *Gen) writeCell(st *State, key, elemSort, a, v string) {
 	h := g.heap(st, key, elemSort)
 	g.setHeap(st, key, Term{sto(h.S, a, v), h.Sort})
-	if key == "H_Int_uint8" {
+	if key == "H_Int_uint8" && !g.noBytesFrame {
 		g.bytesFrame(st.heaps[key].S, h.S, "(or (not ((_ is Elem) "+a+")) (not (= (sarr s) (ebase "+a+"))))")
 	}
 	if g.wlog != nil {
@@ -737,8 +737,15 @@ func (fr *Frame) execSlice(ins *ssa.Slice, c *blockCtx) {
 				// (neither for loop write sets nor for the frame)
 				saveLog, saveRec := g.wlog, g.frec
 				g.wlog, g.frec = nil, nil
+				// one frame fact for the abstract byte contents instead of one per cell
+				before := g.heap(c.st, ek, es).S
+				g.noBytesFrame = true
 				for k := int64(0); k < arr.Len(); k++ {
 					g.writeCell(c.st, ek, es, fmt.Sprintf("(Elem %s %d)", x.S, k), sel(w.S, fmt.Sprint(k)))
+				}
+				g.noBytesFrame = false
+				if ek == "H_Int_uint8" {
+					g.bytesFrame(g.heap(c.st, ek, es).S, before, "(not (= (sarr s) "+x.S+"))")
 				}
 				g.wlog, g.frec = saveLog, saveRec
 				if g.dry == 0 {
@@ -747,6 +754,22 @@ func (fr *Frame) execSlice(ins *ssa.Slice, c *blockCtx) {
 				g.arrSync[x.S] = [2]string{g.heap(c.st, wk, g.sortOf(xt.Elem())).S, g.heap(c.st, ek, es).S}
 			}
 			fr.arrViews[ins] = arrView{arr: x, t: xt.Elem()}
+			// abstract content of the full view of a named byte array with a declared bytesOf<Type> function:
+			// bytes(a[:]) is that function of the array value
+			if eb, ok := arr.Elem().Underlying().(*types.Basic); ok && eb.Kind() == types.Uint8 && lo == "0" && hi == n {
+				if nt, ok := types.Unalias(xt.Elem()).(*types.Named); ok {
+					if ab := g.W.abstracts["bytesOf"+nt.Obj().Name()]; ab != nil && len(ab.Params) == 1 {
+						if pt := g.W.resolveType(ab.Pkg, ab.Params[0], g); pt.G != nil && types.Identical(pt.G, xt.Elem()) {
+							g.declSort("Bytes")
+							g.sc.DeclareOnce("bytesOf", "(declare-fun bytesOf ((Array Ref Int) Slice) Bytes)")
+							g.declareAbstract(ab)
+							whole := g.loadLeaf(c.st, x.S, xt.Elem())
+							sl := fmt.Sprintf("(mkSlice %s 0 %s %s)", x.S, n, n)
+							g.sc.Assume(eq(app("bytesOf", g.heap(c.st, ek, es).S, sl), app(ab.Name, whole.S)))
+						}
+					}
+				}
+			}
 		}
 		fr.define(ins, Term{fmt.Sprintf("(mkSlice %s %s (- %s %s) (- %s %s))", x.S, lo, hi, lo, mx, lo), SSlice})
 	default:
